@@ -3675,6 +3675,8 @@ class mulgrid(object):
             tol = 1.e-3
             straight = [i for i, angle in enumerate(angles) if angle > np.pi - tol]
             ns = len(straight)
+            # spacings between successive straight nodes, around the column:
+            gaps = sorted([(straight[(i + 1) % ns] - s) % nn for i, s in enumerate(straight)])
             if (nn, ns) == (5, 1):
                 return self.subdivide_column(column_name, straight[0],
                                              [(0, 1, 2), (0, 2, 3), (0, 3, 4)],
@@ -3693,14 +3695,14 @@ class mulgrid(object):
                                                  [(0, 1, 2, 3), (3, 4, 5, 0)],
                                                  chars, spaces)
                 else: return self.triangulate_column(column_name, chars, spaces)
-            elif (nn, ns) == (7, 3):
+            elif (nn, ns) == (7, 3) and gaps == [2, 2, 3]:
                 last2 = [col.index_minus(i, 2) for i in straight]
                 start = [s for s, l in zip(straight, last2) if l not in straight][0]
                 return self.subdivide_column(column_name, start,
                                              [(0, 1, 2), (2, 3, 4),
                                               (0, 2, 4), (4, 5, 6, 0)],
                                              chars, spaces)
-            elif (nn, ns) == (8, 4):
+            elif (nn, ns) == (8, 4) and gaps == [2, 2, 2, 2]:
                 return self.subdivide_column(column_name, straight[0],
                                              [(1, 2, 'c', 0), (2, 3, 4, 'c'),
                                               (4, 5, 6, 'c'), (6, 7, 0, 'c')],
